@@ -1,6 +1,6 @@
 """Properties not claimed, with the reason (DESIGN.md §4).  Entries for properties that appear in props.PROPS are ignored."""
 
-HOOK_COMMITS = ['238f505', 'e9abb28']
+HOOK_COMMITS = ['238f505', 'e9abb28', '4b3c44f']
 
 UNDER_CONSTRUCTION = 'check under construction in this round (planned in DESIGN.md §4); not yet claimed'
 
@@ -20,6 +20,6 @@ NOT_APPLICABLE = {
            'contract on, no std::fs/io/fmt specs in Verus, no file-system model in Kani.',
     'C14': 'every mechanism is out of reach: Env is Vec<BTreeMap<String,T>> (no vstd spec; Kani > 7 min for 4 operations), mux_envs '
            'iterates BTreeMaps, assignment/scoping/branch merging are arms of compile.',
- 'C08': UNDER_CONSTRUCTION, 'C09': UNDER_CONSTRUCTION,
-    'C10': UNDER_CONSTRUCTION, 'C12': UNDER_CONSTRUCTION,
+ 'C08': UNDER_CONSTRUCTION,
+    'C10': UNDER_CONSTRUCTION,
 }
